@@ -1,0 +1,94 @@
+//go:build verif
+
+// Round 5, area I: contracts for the start-up of nsq_to_file (C19): flag set, option validation in main, the discoverer's constructor.
+// Comment-only file. Assumed library contracts: .trusted/r5I.spec (package flag, log.Fatal, go-nsq Config, os/signal), hfile.spec.
+
+package main
+
+// ---- library calls as seen from this package ---------------------------------------------------------------------------------------
+// log.Fatal / log.Fatalf print and call os.Exit(1): they do not return (package log documentation). Assumed at calls from this package
+// (std.spec lists log.* as benign = "returns, no effect", which is the cautious reading everywhere else).
+//@ extern[in github.com/nsqio/nsq/apps/nsq_to_file] log.Fatal(v)
+//@   ensures[does-not-return] false
+//@   modifies
+//@ extern[in github.com/nsqio/nsq/apps/nsq_to_file] log.Fatalf(format, v)
+//@   ensures[does-not-return] false
+//@   modifies
+// go-options: Resolve(options, flagSet, cfg) writes the fields of *options (from the flags, then the defaults already in it) and nothing
+// else: every field of the options object is an arbitrary INPUT afterwards. The call is recorded.
+//@ ghost r5IFResolves int
+//@ ghost r5IFResolvedOpts *Options
+//@ ghostgroup r5IFResolves, r5IFResolvedOpts
+//@ extern[in github.com/nsqio/nsq/apps/nsq_to_file] github.com/mreiferson/go-options.Resolve(options, flagSet, cfg)
+//@   requires[an-options-object] dyntype(options) == typetag("*Options") && unbox(options, "*Options") != nil
+//@   modifies *unbox(options, "*Options"), r5IFResolves
+//@   onreturn r5IFResolves := r5IFResolves + 1
+//@   onreturn r5IFResolvedOpts := unbox(options, "*Options")
+
+// ---- flagSet -------------------------------------------------------------------------------------------------------------------------
+// A new flag set on which "version" is defined as a bool flag (main looks it up and type-asserts its value). Nothing that exists is written.
+//@ func flagSet() *flag.FlagSet
+//@   props C19
+//@   ensures[a-new-flag-set] result != nil && fresh(result)
+//@   ensures[version-defined-as-bool] setin(r5IBoolFlags, r5IFlagKey(result, "version")) && setin(r5IFlags, r5IFlagKey(result, "version"))
+//@   modifies r5IFlags, r5IBoolFlags
+//@   nochan
+
+// ---- NewOptions ------------------------------------------------------------------------------------------------------------------------
+//@ func NewOptions() *Options
+//@   props C19
+//@   ensures[fresh-defaults] result != nil && fresh(result) && result.GZIPLevel == 6 && result.Channel == "nsq_to_file" && result.MaxInFlight == 200 && result.OutputDir == "/tmp" && result.WorkDir == ""
+//@   modifies
+//@   nochan
+
+// ---- what main validates -----------------------------------------------------------------------------------------------------------------
+// The options a discoverer may be started with (C19 "every combination of gzip, rotate-size, rotate-interval, ... work-dir ..."): a channel
+// name, positive HTTP timeouts, exactly one of --nsqd-tcp-address / --lookupd-http-address, a gzip level gzip.NewWriterLevel accepts (1-9: the
+// FileLogger contracts ASSUME this - pred hCfg - for Sync / Close / updateFile / router), at least one --topic or a --topic-pattern, lookupd
+// addresses when topics must be discovered, and a work dir (defaulting to the output dir: only when they differ is a finished file moved).
+//@ pred r5IFOptsValid(o *Options) := (o != nil && o.Channel != "" && o.HTTPClientConnectTimeout > 0 && o.HTTPClientRequestTimeout > 0 &&
+//@      (len(o.NSQDTCPAddrs) == 0) != (len(o.NSQLookupdHTTPAddrs) == 0) && 1 <= o.GZIPLevel && o.GZIPLevel <= 9 &&
+//@      (len(o.Topics) != 0 || len(o.TopicPattern) != 0) && (len(o.Topics) == 0 ==> len(o.NSQLookupdHTTPAddrs) != 0) &&
+//@      (o.WorkDir == "" ==> o.OutputDir == ""))
+
+// ---- newTopicDiscoverer -------------------------------------------------------------------------------------------------------------------
+// The discoverer is built around exactly the options, consumer configuration and signal channels it is given, with an empty logger table and a
+// lookupd client using the two HTTP timeouts of the options. Nothing that exists is written.
+//@ ghost r5IFDiscs int
+//@ ghost r5IFDisc *TopicDiscoverer
+//@ ghostgroup r5IFDiscs, r5IFDisc
+//@ func newTopicDiscoverer(logf lg.AppLogFunc, opts *Options, cfg *nsq.Config, hupChan chan os.Signal, termChan chan os.Signal) *TopicDiscoverer
+//@   props C19
+//@   requires opts != nil
+//@   ensures[new] result != nil && fresh(result)
+//@   ensures[built-from-the-arguments] result.opts == opts && result.cfg == cfg && result.hupChan == hupChan && result.termChan == termChan
+//@   ensures[no-logger-yet] result.topics != nil && len(result.topics) == 0 && (forall k string :: {result.topics[k]} !has(result.topics, k))
+//@   ensures[lookupd-client] result.ci != nil
+//@   ensures[lookupd-client-with-the-configured-timeouts] r4EHCCalls == old(r4EHCCalls) + 1 && r4EHCConnTO == opts.HTTPClientConnectTimeout && r4EHCReqTO == opts.HTTPClientRequestTimeout
+//@   ensures[options-untouched] opts.GZIPLevel == old(opts.GZIPLevel)
+//@   modifies r4EHCCalls, r5IFDiscs
+//@   onreturn r5IFDiscs := r5IFDiscs + 1
+//@   onreturn r5IFDisc := result
+//@   nochan
+
+// ---- main ------------------------------------------------------------------------------------------------------------------------------------
+// C19 start-up: the flags are parsed and resolved into ONE options object, every check is made on that object BEFORE the discoverer (which
+// starts the consumers) exists, a failed check is fatal (log.Fatal: the process ends, nothing was started), and the discoverer that runs is
+// the one built from that object, the consumer configuration (with max-in-flight = --max-in-flight) and two DISTINCT signal channels
+// (run's preconditions [options-validated], [consumer-config-from-options], [distinct-signal-channels], [loggers-exist] are obligations here).
+// --version prints and returns without starting anything.
+//@ ghost r5IFRuns int
+//@ ghost r5IFRan *TopicDiscoverer
+//@ ghostgroup r5IFRuns, r5IFRan
+//@ func main()
+//@   props C19
+//   (environment: the operating system passes at least the program name)
+//@   requires[program-name-present] len(os.Args) >= 1
+//@   ensures[at-most-one-run] r5IFRuns == old(r5IFRuns) || r5IFRuns == old(r5IFRuns) + 1
+//@   ensures[runs-the-discoverer-built-from-the-resolved-options] r5IFRuns == old(r5IFRuns) + 1 ==> r5IFDiscs == old(r5IFDiscs) + 1 && r5IFRan == r5IFDisc && r5IFResolves == old(r5IFResolves) + 1 && r5IFRan.opts == r5IFResolvedOpts
+//@   ensures[started-only-with-validated-options] r5IFRuns == old(r5IFRuns) + 1 ==> r5IFOptsValid(r5IFRan.opts) && r5IFRan.cfg != nil && r5IFRan.cfg.MaxInFlight == r5IFRan.opts.MaxInFlight
+//@   ensures[work-dir-defaults-to-output-dir] r5IFRuns == old(r5IFRuns) + 1 ==> r5IFRan.opts.WorkDir != "" || r5IFRan.opts.OutputDir == ""
+//@   ensures[no-ack-no-write-here] hFinishes == old(hFinishes) && wCalls == old(wCalls) && hRenames == old(hRenames) && hOpens == old(hOpens)
+//@   loop 0
+//@     invariant[validated] r5IFOptsValid(opts) && cfg != nil && cfg == cfgFlag.Config && opts == r5IFResolvedOpts && r5IFResolves == old(r5IFResolves) + 1 && r5IFRuns == old(r5IFRuns) && r5IFDiscs == old(r5IFDiscs)
+//@     invariant[no-ack-no-write-here] hFinishes == old(hFinishes) && wCalls == old(wCalls) && hRenames == old(hRenames) && hOpens == old(hOpens)
